@@ -298,3 +298,241 @@ class RxHarness(Harness):
         if not self.bad_seen:
             return "no frame with a bad stop bit"
         return None
+
+
+# ---------------------------------------------------------------------------------------------------
+# RS232PHY: transmitter and receiver of one PHY connected pin to pin
+# ---------------------------------------------------------------------------------------------------
+class _PhyLoopDUT(Module):
+    def __init__(self, clk_freq, baudrate):
+        from litex.soc.cores import uart
+        self.pads = uart.UARTPads()
+        self.submodules.phy = uart.RS232PHY(self.pads, clk_freq, baudrate)
+        self.comb += self.pads.rx.eq(self.pads.tx)
+
+
+class PhyLoopHarness(Harness):
+    """env = (offer, queue): byte offered to the transmitter (held until ready); queue of (byte, age) offered and not yet delivered by the
+    receiver.  Every offered byte must come out of the receiver exactly once, in order, within 2 frame times + 10 clocks."""
+    live_queries = (("uart.phy.starved", PEND, READY, (), "a byte stays offered for ever without being acknowledged"),)
+
+    def __init__(self, name, clk_freq, baudrate, bytes_):
+        self.name, self.clk_freq, self.baudrate, self.bytes = name, clk_freq, baudrate, tuple(bytes_)
+        self.N = Fraction(2**32, int((baudrate/clk_freq)*2**32))
+        self.limit = int(22*self.N) + 10
+        self.delivered = 0
+
+    def build(self):
+        self.dut = _PhyLoopDUT(self.clk_freq, self.baudrate)
+        return self.dut
+
+    def bind(self, D):
+        p = self.dut.phy
+        self.i = dict(valid=D.i(p.sink.valid), ready=D.i(p.sink.ready), data=D.i(p.sink.data), ovalid=D.i(p.source.valid), odata=D.i(p.source.data))
+
+    def env_init(self):
+        return (-1, (), 0)
+
+    def choices(self, env):
+        if env[2] < 3:
+            return [-1]                # the receiver's synchroniser resets to 0: let the line idle 3 clocks after reset
+        return [env[0]] if env[0] >= 0 else [-1] + list(self.bytes)
+
+    def drive(self, v, env, ch):
+        v[self.i["valid"]] = int(ch >= 0)
+        v[self.i["data"]] = ch if ch >= 0 else 0x3C
+
+    def observe(self, v, env, ch):
+        offer, q, boot = env
+        i = self.i
+        q = list(q)
+        if ch >= 0 and offer < 0:
+            q.append((ch, 0))
+        if v[i["ovalid"]]:
+            if not q:
+                return env, ("uart.phy.spurious", f"receiver delivers {v[i['odata']]:#x} although nothing was sent"), 0
+            if q[0][0] != v[i["odata"]]:
+                return env, ("uart.phy.data", f"receiver delivers {v[i['odata']]:#04x}, transmitter was given {q[0][0]:#04x}"), 0
+            q.pop(0)
+            self.delivered += 1
+        q = [(b, a + 1) for b, a in q]
+        if q and q[0][1] > self.limit:
+            return env, ("uart.phy.lost", f"byte {q[0][0]:#04x} not delivered {q[0][1]} cycles after it was offered"), 0
+        acc = ch >= 0 and v[i["ready"]]
+        flags = (PEND if ch >= 0 else 0) | (READY if acc else 0)
+        return ((-1 if (acc or ch < 0) else ch), tuple(q), min(boot + 1, 3)), None, flags
+
+    def cover_report(self):
+        return dict(deliveries=self.delivered)
+
+    def vacuity(self):
+        return None if self.delivered else "nothing delivered"
+
+
+# ---------------------------------------------------------------------------------------------------
+# UART: CSR front end + FIFOs + events, the environment plays the PHY
+# ---------------------------------------------------------------------------------------------------
+TXPEND, TXRDY, TXOUT, RXPEND, RXVIS = 8, 16, 32, 64, 128
+
+
+class _UartDUT(Module):
+    def __init__(self, depth, rx_we):
+        from litex.soc.cores import uart
+        from litex.soc.interconnect import csr_bus
+        self.submodules.uart = uart.UART(phy=None, tx_fifo_depth=depth, rx_fifo_depth=depth, rx_fifo_rx_we=rx_we)
+        self.bus = csr_bus.Interface(data_width=32, address_width=14)
+        self.submodules.bank = csr_bus.CSRBank(self.uart.get_csrs(), address=0, bus=self.bus)
+
+
+class UartHarness(Harness):
+    """env = (txq, rxq, ev, txfull_seen): reference queues of the two directions, event registers
+       ev = (pend_tx, pend_rx, level_tx_d, level_rx_d, clear_tx, clear_rx, enable)
+    TX: every byte written to RXTX while TXFULL = 0 leaves through `source` exactly once, in order.  RX: every byte the PHY delivers while
+    RXFULL = 0 is shown on RXTX in order; acknowledging the rx event (or, with rx_fifo_rx_we, reading RXTX) removes exactly the head.
+    Events: tx = rising edge of "TX FIFO not full", rx = rising edge of "RX FIFO not empty" (UART_EV_TX = 1, UART_EV_RX = 2)."""
+    conf_every = 211
+    live_queries = (
+        ("uart.tx_fifo.stuck", TXPEND, TXOUT, (TXRDY,), "bytes are queued and the PHY is ready again and again, but nothing is transmitted"),
+        ("uart.rx_fifo.stuck", RXPEND, RXVIS, (), "a received byte never becomes visible (RXEMPTY stays 1)"),
+    )
+
+    def __init__(self, name, depth=2, rx_we=False, bytes_=(0x11, 0xEE), side="tx"):
+        self.name, self.depth, self.rx_we, self.bytes, self.side = name, depth, rx_we, tuple(bytes_), side
+        self.tx_out = self.rx_pop = self.rx_drop = 0
+
+    def build(self):
+        self.dut = _UartDUT(self.depth, self.rx_we)
+        return self.dut
+
+    def bind(self, D):
+        u, b = self.dut.uart, self.dut.bus
+        g = D.i
+        self.b = dict(adr=g(b.adr), we=g(b.we), dat_w=g(b.dat_w), re=g(b.re))
+        names = {c.name: k for k, c in enumerate(self.dut.bank.simple_csrs)}
+        self.adr = {}
+        for need in ("rxtx", "txfull", "rxempty", "ev_status", "ev_pending", "ev_enable", "txempty", "rxfull"):
+            hits = [a for n, a in names.items() if n.rstrip("0123456789") == need]
+            if len(hits) != 1:
+                raise MachineryError(f"UART CSR {need} not found in {sorted(names)}")
+            self.adr[need] = hits[0]
+        self.i = dict(src_valid=g(u.source.valid), src_ready=g(u.source.ready), src_data=g(u.source.data),
+                      snk_valid=g(u.sink.valid), snk_data=g(u.sink.data),
+                      txfull=g(u._txfull.status), txempty=g(u._txempty.status), rxempty=g(u._rxempty.status), rxfull=g(u._rxfull.status),
+                      rxtx_w=g(u._rxtx.w), pend=g(u.ev.pending.status), stat=g(u.ev.status.status), irq=g(u.ev.irq))
+
+    def env_init(self):
+        return ((), (), (0, 0, 0, 0, 0, 0, 0), 1)
+
+    def choices(self, env):
+        txq, rxq, ev, txfull_seen = env
+        # the two directions share nothing but the event manager: one configuration per direction keeps the product small
+        tx, rx_ = self.side in ("tx", "both"), self.side in ("rx", "both")
+        ops = [("i",), ("w", "ev_enable", 0), ("w", "ev_enable", 3)]
+        if tx:
+            ops.append(("w", "ev_pending", 1))
+            if not txfull_seen:
+                ops += [("w", "rxtx", b) for b in self.bytes]
+        if rx_:
+            ops.append(("w", "ev_pending", 2))
+            if self.rx_we:
+                ops.append(("r", "rxtx"))
+        out = []
+        for op in ops:
+            for rdy in ((0, 1) if tx else (0,)):
+                for rx in (((-1,) + self.bytes) if rx_ else (-1,)):
+                    out.append((op, rdy, rx))
+        return out
+
+    def drive(self, v, env, ch):
+        op, rdy, rx = ch
+        b, i = self.b, self.i
+        v[b["we"]] = v[b["re"]] = v[b["adr"]] = v[b["dat_w"]] = 0
+        if op[0] == "w":
+            v[b["we"]], v[b["adr"]], v[b["dat_w"]] = 1, self.adr[op[1]], op[2]
+        elif op[0] == "r":
+            v[b["re"]], v[b["adr"]] = 1, self.adr[op[1]]
+        v[i["src_ready"]] = rdy
+        v[i["snk_valid"]] = int(rx >= 0)
+        v[i["snk_data"]] = rx if rx >= 0 else 0
+
+    def observe(self, v, env, ch):
+        op, rdy, rx = ch
+        i = self.i
+        txq, rxq, (p_tx, p_rx, d_tx, d_rx, c_tx, c_rx, even), _ = env
+        txq, rxq = list(txq), list(rxq)
+        flags = 0
+        txfull, rxempty, rxfull = v[i["txfull"]], v[i["rxempty"]], v[i["rxfull"]]
+        # status / events as functions of the FIFO flags
+        lvl_tx, lvl_rx = 1 - txfull, 1 - rxempty
+        if v[i["stat"]] != (lvl_tx | (lvl_rx << 1)):
+            return env, ("uart.ev.status", f"ev.status = {v[i['stat']]:#b}, TXFULL = {txfull}, RXEMPTY = {rxempty}"), 0
+        if v[i["pend"]] != (p_tx | (p_rx << 1)):
+            return env, ("uart.ev.pending", f"ev.pending = {v[i['pend']]:#b}, reference tx={p_tx} rx={p_rx}"), 0
+        if v[i["irq"]] != int(bool((p_tx | (p_rx << 1)) & even)):
+            return env, ("uart.ev.irq", f"irq = {v[i['irq']]}, pending = {p_tx | (p_rx << 1):#b}, enable = {even:#b}"), 0
+        # TX direction
+        if op[0] == "w" and op[1] == "rxtx":
+            if txfull:
+                raise MachineryError("environment wrote RXTX while TXFULL")
+            txq.append(op[2])
+        if v[i["src_valid"]]:
+            if not txq:
+                return env, ("uart.tx_fifo.spurious", f"source.valid with data {v[i['src_data']]:#x} although every written byte has already been transmitted"), 0
+            if v[i["src_data"]] != txq[0]:
+                return env, ("uart.tx_fifo.order", f"source.data = {v[i['src_data']]:#x}, oldest untransmitted byte is {txq[0]:#x}"), 0
+            if rdy:
+                txq.pop(0)
+                flags |= TXOUT
+                self.tx_out += 1
+        if len(txq) > self.depth + 2:
+            return env, ("uart.tx_fifo.capacity", f"{len(txq)} bytes accepted by a TX FIFO of depth {self.depth}"), 0
+        if txq:
+            flags |= TXPEND
+        if rdy:
+            flags |= TXRDY
+        # RX direction
+        if not rxempty:
+            if not rxq:
+                return env, ("uart.rx_fifo.spurious", f"RXEMPTY = 0 (RXTX = {v[i['rxtx_w']]:#x}) although every received byte has been removed"), 0
+            if v[i["rxtx_w"]] != rxq[0]:
+                return env, ("uart.rx_fifo.order", f"RXTX shows {v[i['rxtx_w']]:#x}, oldest received byte is {rxq[0]:#x}"), 0
+            flags |= RXVIS
+        pop = (c_rx or (self.rx_we and op[0] == "r" and op[1] == "rxtx")) and not rxempty
+        if pop:
+            rxq.pop(0)
+            self.rx_pop += 1
+        if rx >= 0:
+            if rxfull:
+                self.rx_drop += 1        # the PHY has no back-pressure: a byte arriving at a full FIFO is lost (documented by RXFULL)
+            else:
+                rxq.append(rx)
+        if len(rxq) > self.depth + 2:
+            return env, ("uart.rx_fifo.capacity", f"{len(rxq)} bytes accepted by an RX FIFO of depth {self.depth}"), 0
+        if rxq and not pop:
+            flags |= RXPEND
+        # events
+        p_tx2, d_tx2 = ev_step_(p_tx, d_tx, c_tx, lvl_tx)
+        p_rx2, d_rx2 = ev_step_(p_rx, d_rx, c_rx, lvl_rx)
+        c_tx2 = c_rx2 = 0
+        if op[0] == "w" and op[1] == "ev_pending":
+            c_tx2, c_rx2 = op[2] & 1, (op[2] >> 1) & 1
+        if op[0] == "w" and op[1] == "ev_enable":
+            even = op[2] & 3
+        return (tuple(txq), tuple(rxq), (p_tx2, p_rx2, d_tx2, d_rx2, c_tx2, c_rx2, even), 1 if (op[0] == "w" and op[1] == "rxtx") else txfull), None, flags
+
+    def cover_report(self):
+        return dict(tx_bytes=self.tx_out, rx_removed=self.rx_pop, rx_dropped_when_full=self.rx_drop)
+
+    def vacuity(self):
+        if self.side in ("tx", "both") and not self.tx_out:
+            return "no byte transmitted"
+        if self.side in ("rx", "both") and not (self.rx_pop and self.rx_drop):
+            return "rx removal / overflow not exercised"
+        return None
+
+
+def ev_step_(pend, lvl_d, clear, lvl):
+    p2 = 0 if clear else pend
+    if lvl and not lvl_d:
+        p2 = 1
+    return p2, lvl
